@@ -325,7 +325,6 @@ Lemma neq_CONN_UP : K_CONN <> K_UPGRADE. Proof. kne. Qed.
 #[local] Hint Extern 1 (?a <> ?b) => (apply not_eq_sym; auto with keys; fail) : keys.
 
 (* "k differs from the configured name, or no name is configured" *)
-Definition off (k name : str) : Prop := name = [] \/ canon_key name <> k.
 
 Lemma st1_off cfg peer h k : off k (c_clientip cfg) -> hfind (st1 cfg peer h) k = hfind h k.
 Proof. intros [E|N]; apply st1_other; [now right|left; congruence]. Qed.
@@ -412,11 +411,6 @@ Lemma hget_eq h1 h2 k : hfind h1 k = hfind h2 k -> hget h1 k = hget h2 k.
 Proof. unfold hget. now intros ->. Qed.
 
 (* Forwarded: the value built by addHeaders = base ++ appended items *)
-Definition fwd_items (cfg : config) (r : request) : str :=
-  (if sempty (c_localip cfg) then [] else bs "; by=" ++ c_localip cfg) ++
-  (if sempty (r_proto r) then [] else bs "; httpproto=" ++ lower (r_proto r)) ++
-  (match r_tls r with Some (v, _) => if 0 <? v then bs "; tlsver=" ++ tls_ver_name v else [] | None => [] end) ++
-  (match r_tls r with Some (_, cs) => if negb (cs =? 0) then bs "; tlscipher=" ++ uint16base16 cs else [] | None => [] end).
 
 Lemma forwarded_value_eq cfg r peer proto h :
   forwarded_value cfg r peer proto h =
@@ -468,6 +462,14 @@ Proof. unfold conn_scheme. destruct (is_ws h), tls; vm_compute; reflexivity. Qed
 Lemma scheme_fresh h tls : hget h K_XFP = [] -> hget h K_FWD = [] -> scheme h tls = conn_scheme h tls.
 Proof. intros A B. unfold scheme. rewrite A, B. reflexivity. Qed.
 
+Lemma scheme_untrusted h tls :
+  hget h K_XFP = [] -> contains (hget h K_FWD) (bs "proto=") = false -> scheme h tls = conn_scheme h tls.
+Proof.
+  intros A B. unfold scheme. rewrite A. cbn [sempty negb andb].
+  destruct (hget h K_FWD) as [|c f] eqn:F; [reflexivity|]. cbn [sempty negb andb].
+  unfold contains in B. destruct (index (c :: f) (bs "proto=")); [discriminate|reflexivity].
+Qed.
+
 Lemma fresh_inv hdr : fresh hdr = true -> hget hdr K_XFP = [] /\ hget hdr K_FWD = [].
 Proof.
   unfold fresh. intros H. apply andb_true_iff in H as [A B].
@@ -481,6 +483,26 @@ Proof.
   intros F C1 C2. apply fresh_inv in F as [A B]. split.
   - rewrite (hget_eq _ hdr); auto. apply upto3_other; auto with keys.
   - rewrite (hget_eq _ hdr); auto. apply upto3_other; auto with keys.
+Qed.
+
+(* X-Forwarded-Proto absent => the supplied one describes the connection, unless the client
+   sent a Forwarded header with a proto= item (finding region 5) *)
+Theorem proto_supplied cfg strip r h' :
+  add_headers cfg strip r = Ok h' ->
+  hget (r_hdr r) K_XFP = [] -> F_fwd_proto_trusted (r_hdr r) = false ->
+  off K_XFP (c_clientip cfg) -> off K_FWD (c_clientip cfg) -> off K_XFP (c_tlsheader cfg) ->
+  hfind h' K_XFP = Some [true_scheme (is_tls r)].
+Proof.
+  intros H X F C1 C2 T. apply add_headers_ok in H as (peer & P & ->). unfold upto10; rewrite ?unlist_other by auto with keys.
+  assert (A : hget (upto3 cfg peer (r_hdr r)) K_XFP = []).
+  { rewrite (hget_eq _ (r_hdr r)); auto. apply upto3_other; auto with keys. }
+  assert (B : hget (upto3 cfg peer (r_hdr r)) K_FWD = hget (r_hdr r) K_FWD).
+  { apply hget_eq. apply upto3_other; auto with keys. }
+  unfold F_fwd_proto_trusted in F. rewrite X in F. cbn [sempty andb] in F.
+  unfold upto9, upto7. rewrite st9_off by exact T.
+  rewrite st8_other, st7_other, st6_other, st5_other by auto with keys.
+  unfold st4. rewrite A. cbn [sempty cset]. rewrite hfind_hset_same.
+  rewrite scheme_untrusted; [now rewrite xfp_of_conn_scheme|exact A|now rewrite B].
 Qed.
 
 Theorem proto_truthful cfg strip r h' :
@@ -556,23 +578,175 @@ Proof.
   rewrite IH; auto. intros I. apply N. now right.
 Qed.
 
-Theorem local_port_host_port a p tls :
-  a <> [] -> ~ In 58 a -> p <> [] -> local_port (a ++ 58 :: p) tls = p.
+Lemma has_byte_false s c : has_byte s c = false <-> ~ In c s.
 Proof.
-  intros A N P. unfold local_port. rewrite index_byte_app by exact N.
-  assert (L : length (a ++ 58 :: p) = (length a + S (length p))%nat) by (rewrite app_length; reflexivity).
-  assert (0 < length a)%nat by (destruct a; [congruence|cbn; lia]).
-  assert (0 < length p)%nat by (destruct p; [congruence|cbn; lia]).
-  replace (Nat.ltb 0 (length a)) with true by (symmetry; apply Nat.ltb_lt; lia).
-  replace (Nat.ltb (length a) (length (a ++ 58 :: p) - 1)) with true by (symmetry; apply Nat.ltb_lt; lia).
-  cbn [andb]. replace (length a + 1)%nat with (length (a ++ [58])) by (rewrite app_length; reflexivity).
-  replace (a ++ 58 :: p) with ((a ++ [58]) ++ p) by (rewrite <- app_assoc; reflexivity).
-  rewrite skipn_app, skipn_all, Nat.sub_diag. reflexivity.
+  unfold has_byte. split.
+  - intros H I. assert (existsb (N.eqb c) s = true) by (apply existsb_exists; exists c; split; [exact I|apply N.eqb_refl]).
+    congruence.
+  - intros N. destruct (existsb (N.eqb c) s) eqn:E; auto.
+    apply existsb_exists in E as (x & I & E). apply N.eqb_eq in E. subst. contradiction.
 Qed.
 
-Theorem local_port_no_colon host tls :
-  ~ In 58 host -> local_port host tls = if tls then bs "443" else bs "80".
-Proof. intros N. unfold local_port. now rewrite index_byte_none. Qed.
+Lemma has_byte_true s c : In c s -> has_byte s c = true.
+Proof. intros I. destruct (has_byte s c) eqn:E; auto. apply has_byte_false in E. contradiction. Qed.
+
+Lemma last_index_byte_app a c p : ~ In c p -> last_index_byte (a ++ c :: p) c = Some (length a).
+Proof.
+  intros N. unfold last_index_byte. rewrite rev_app_distr. cbn [rev]. rewrite <- app_assoc. cbn [app].
+  rewrite index_byte_app by (rewrite <- in_rev; exact N).
+  f_equal. rewrite rev_length, app_length. cbn [length]. lia.
+Qed.
+
+Lemma last_index_byte_none s c : ~ In c s -> last_index_byte s c = None.
+Proof. intros N. unfold last_index_byte. rewrite index_byte_none; auto. now rewrite <- in_rev. Qed.
+
+Lemma index_byte_lt s c : forall i, index_byte s c = Some i -> (i < length s)%nat.
+Proof.
+  induction s as [|x s IH]; cbn [index_byte length]; intros i H; [discriminate|].
+  destruct (x =? c); [inversion H; lia|].
+  destruct (index_byte s c) as [j|]; [|discriminate]. inversion H. specialize (IH j eq_refl). lia.
+Qed.
+
+Lemma last_index_byte_lt s c i : last_index_byte s c = Some i -> (i < length s)%nat.
+Proof.
+  unfold last_index_byte. destruct (index_byte (rev s) c) as [j|] eqn:E; [|discriminate].
+  intros H. inversion H. apply index_byte_lt in E. rewrite rev_length in E. lia.
+Qed.
+
+Lemma firstn_app_exact {A} (a b : list A) : firstn (length a) (a ++ b) = a.
+Proof. rewrite firstn_app, Nat.sub_diag, firstn_all. cbn [firstn]. apply app_nil_r. Qed.
+
+Lemma skipn_app_exact {A} (a b : list A) : skipn (length a) (a ++ b) = b.
+Proof. rewrite skipn_app, Nat.sub_diag, skipn_all. reflexivity. Qed.
+
+Lemma not_in_app3 c (a : str) x (p : str) : ~ In c a -> x <> c -> ~ In c p -> ~ In c (a ++ x :: p).
+Proof. intros A X P I. apply in_app_or in I as [I|[I|I]]; auto. Qed.
+
+Lemma starts_bracket_app a x p : ~ In 91 a -> x <> 91 -> starts_bracket (a ++ x :: p) = false.
+Proof.
+  intros A X. destruct a as [|c a]; cbn [app starts_bracket].
+  - now apply N.eqb_neq.
+  - apply N.eqb_neq. intros E. apply A. now left.
+Qed.
+
+(* ---- net.SplitHostPort (model) on each syntactic shape of a Host value ---- *)
+Lemma shp_plain a p :
+  ~ In 58 a -> ~ In 91 a -> ~ In 93 a -> ~ In 58 p -> ~ In 91 p -> ~ In 93 p ->
+  split_host_port (a ++ 58 :: p) = Some (a, p).
+Proof.
+  intros A1 A2 A3 P1 P2 P3. unfold split_host_port.
+  rewrite last_index_byte_app by exact P1.
+  rewrite starts_bracket_app by (auto; discriminate).
+  cbv zeta. rewrite firstn_app_exact. rewrite (proj2 (has_byte_false a 58) A1).
+  rewrite (proj2 (has_byte_false _ 91) (not_in_app3 91 a 58 p A2 ltac:(discriminate) P2)).
+  rewrite (proj2 (has_byte_false _ 93) (not_in_app3 93 a 58 p A3 ltac:(discriminate) P3)). cbn [orb].
+  replace (a ++ 58 :: p) with ((a ++ [58]) ++ p) by (rewrite <- app_assoc; reflexivity).
+  replace (length a + 1)%nat with (length (a ++ [58])) by (rewrite app_length; reflexivity).
+  now rewrite skipn_app_exact.
+Qed.
+
+Lemma shp_bracket a p :
+  ~ In 91 a -> ~ In 93 a -> ~ In 58 p -> ~ In 91 p -> ~ In 93 p ->
+  split_host_port (91 :: a ++ 93 :: 58 :: p) = Some (a, p).
+Proof.
+  intros A2 A3 P1 P2 P3. unfold split_host_port.
+  replace (91 :: a ++ 93 :: 58 :: p) with ((91 :: a ++ [93]) ++ 58 :: p)
+    by (cbn [app]; rewrite <- app_assoc; reflexivity).
+  rewrite last_index_byte_app by exact P1.
+  replace ((91 :: a ++ [93]) ++ 58 :: p) with ((91 :: a) ++ 93 :: 58 :: p)
+    by (cbn [app]; rewrite <- app_assoc; reflexivity).
+  cbn [starts_bracket app]. rewrite N.eqb_refl.
+  change (91 :: a ++ 93 :: 58 :: p) with ((91 :: a) ++ 93 :: 58 :: p).
+  rewrite index_byte_app by (intros [E|I]; [discriminate|auto]).
+  cbn [length app]. rewrite app_length. cbn [length].
+  replace (Nat.eqb (S (length a) + 1) (S (length a + 1))) with true by (symmetry; apply Nat.eqb_eq; lia).
+  cbn [skipn].
+  rewrite (proj2 (has_byte_false _ 91) (not_in_app3 91 a 93 (58 :: p) A2 ltac:(discriminate)
+             ltac:(intros [E|I]; [discriminate|auto]))).
+  replace (S (length a) + 1)%nat with (S (S (length a))) by lia. cbn [skipn].
+  replace (a ++ 93 :: 58 :: p) with ((a ++ [93]) ++ 58 :: p) by (rewrite <- app_assoc; reflexivity).
+  replace (skipn (S (length a)) ((a ++ [93]) ++ 58 :: p)) with (58 :: p).
+  2:{ replace (S (length a)) with (length (a ++ [93])) by (rewrite app_length; cbn; lia). now rewrite skipn_app_exact. }
+  rewrite (proj2 (has_byte_false (58 :: p) 93) ltac:(intros [E|I]; [discriminate|auto])). cbn [orb].
+  replace (S (length a) - 1)%nat with (length a) by lia.
+  rewrite <- app_assoc. cbn [app]. rewrite firstn_app_exact.
+  replace (S (length a + 1) + 1)%nat with (S (S (S (length a)))) by lia. cbn [skipn].
+  replace (a ++ 93 :: 58 :: p) with ((a ++ [93; 58]) ++ p) by (rewrite <- app_assoc; reflexivity).
+  replace (S (S (length a))) with (length (a ++ [93; 58])) by (rewrite app_length; cbn; lia).
+  now rewrite skipn_app_exact.
+Qed.
+
+Lemma shp_no_colon hp : ~ In 58 hp -> split_host_port hp = None.
+Proof. intros N. unfold split_host_port. now rewrite last_index_byte_none. Qed.
+
+Lemma shp_many_colons a b p :
+  ~ In 58 p -> starts_bracket (a ++ 58 :: b ++ 58 :: p) = false ->
+  split_host_port (a ++ 58 :: b ++ 58 :: p) = None.
+Proof.
+  intros P SB. unfold split_host_port. rewrite SB.
+  replace (a ++ 58 :: b ++ 58 :: p) with ((a ++ 58 :: b) ++ 58 :: p) by (rewrite <- app_assoc; reflexivity).
+  rewrite last_index_byte_app by exact P. cbv zeta. rewrite firstn_app_exact.
+  rewrite has_byte_true; [reflexivity|]. apply in_or_app. right. now left.
+Qed.
+
+Lemma shp_bracket_only a : ~ In 93 a -> split_host_port (91 :: a ++ [93]) = None.
+Proof.
+  intros A. unfold split_host_port.
+  destruct (last_index_byte (91 :: a ++ [93]) 58) as [i|] eqn:L; [|reflexivity].
+  cbn [starts_bracket]. rewrite N.eqb_refl.
+  change (91 :: a ++ [93]) with ((91 :: a) ++ 93 :: []).
+  rewrite index_byte_app by (intros [E|I]; [discriminate|auto]).
+  apply last_index_byte_lt in L. cbn [length] in *. rewrite app_length in L. cbn [length] in L.
+  replace (Nat.eqb (S (length a) + 1) i) with false; [reflexivity|].
+  symmetry. apply Nat.eqb_neq. lia.
+Qed.
+
+(* ---- localPort on each syntactic shape of the Host header (all inputs of that shape) ---- *)
+(* host:port *)
+Theorem local_port_host_port a p tls :
+  a <> [] -> p <> [] -> ~ In 58 a -> ~ In 91 a -> ~ In 93 a -> ~ In 58 p -> ~ In 91 p -> ~ In 93 p ->
+  local_port (a ++ 58 :: p) tls = p.
+Proof.
+  intros A P. intros. unfold local_port. rewrite shp_plain by assumption.
+  destruct a; [congruence|]. destruct p; [congruence|]. reflexivity.
+Qed.
+
+(* [IPv6 literal, zone included]:port *)
+Theorem local_port_bracketed a p tls :
+  a <> [] -> p <> [] -> ~ In 91 a -> ~ In 93 a -> ~ In 58 p -> ~ In 91 p -> ~ In 93 p ->
+  local_port (91 :: a ++ 93 :: 58 :: p) tls = p.
+Proof.
+  intros A P. intros. unfold local_port. rewrite shp_bracket by assumption.
+  destruct a; [congruence|]. destruct p; [congruence|]. reflexivity.
+Qed.
+
+(* [IPv6 literal] without port *)
+Theorem local_port_bracket_only a tls : ~ In 93 a -> local_port (91 :: a ++ [93]) tls = default_port tls.
+Proof. intros A. unfold local_port. now rewrite shp_bracket_only. Qed.
+
+Theorem local_port_no_colon host tls : ~ In 58 host -> local_port host tls = default_port tls.
+Proof. intros N. unfold local_port. now rewrite shp_no_colon. Qed.
+
+(* several colons without brackets (a:b:c, ::1): no port can be told apart *)
+Theorem local_port_many_colons a b p tls :
+  ~ In 58 p -> starts_bracket (a ++ 58 :: b ++ 58 :: p) = false ->
+  local_port (a ++ 58 :: b ++ 58 :: p) tls = default_port tls.
+Proof. intros P SB. unfold local_port. now rewrite shp_many_colons. Qed.
+
+(* empty host ":80" and trailing colon "host:" *)
+Theorem local_port_empty_host p tls :
+  ~ In 58 p -> ~ In 91 p -> ~ In 93 p -> local_port (58 :: p) tls = default_port tls.
+Proof.
+  intros. unfold local_port. change (58 :: p) with ([] ++ 58 :: p).
+  rewrite shp_plain by (auto; intros []). reflexivity.
+Qed.
+
+Theorem local_port_trailing_colon a tls :
+  ~ In 58 a -> ~ In 91 a -> ~ In 93 a -> local_port (a ++ [58]) tls = default_port tls.
+Proof.
+  intros. unfold local_port. rewrite shp_plain by (auto; intros []).
+  destruct a; reflexivity.
+Qed.
 
 (* Strict-Transport-Security only on TLS connections *)
 Theorem hsts_only_tls cfg tls v : add_response_headers cfg tls = Some v -> tls = true.
@@ -853,18 +1027,6 @@ Proof. reflexivity. Qed.
 Lemma serve_is_instance cfg t uuid r :
   serve cfg t uuid r = serve_with add_headers cfg t uuid r.
 Proof. reflexivity. Qed.
-Definition ex_cfg : config :=
-  {| c_clientip := bs "X-Client-Ip"; c_tlsheader := bs "X-Tls"; c_tlsvalue := bs "true"; c_localip := [];
-     c_reqid := []; c_sts_maxage := 31536000%Z; c_sts_sub := false; c_sts_preload := false |}.
-Definition ex_cfg_xri : config :=
-  {| c_clientip := bs "X-Real-Ip"; c_tlsheader := []; c_tlsvalue := []; c_localip := [];
-     c_reqid := []; c_sts_maxage := 0%Z; c_sts_sub := false; c_sts_preload := false |}.
-Definition ex_peer : str := bs "1.2.3.4".
-Definition ex_req (tls : option (N * N)) (hdr : hmap) : request :=
-  {| r_peer := Some ex_peer; r_host := bs "example.com"; r_tls := tls; r_proto := bs "HTTP/1.1"; r_hdr := hdr |}.
-Definition ex_tgt (hostopt : str) : target :=
-  {| t_host := hostopt; t_url_host := bs "10.0.0.9:9000"; t_strip := [] |}.
-
 Ltac witness := repeat (split; [vm_compute; reflexivity|]); vm_compute; reflexivity.
 
 (* F-C08-1 (REPAIRED in /repo by 7dd13e1): host= option; the client asked for example.com on
@@ -948,7 +1110,6 @@ Proof. cbv zeta. eexists. eexists. witness. Qed.
 (* F-C08-4 (REPAIRED in /repo by 216337c): Connection names the configured client-IP header,
    X-Real-Ip and (TLS request) the TLS header, on the code as it was before the repair
    ([serve_conn_unrepaired]) *)
-Definition ex_conn_hdr : hmap := [(K_CONN, [bs "X-Client-Ip, X-Real-Ip"; bs "x-tls"])].
 
 Theorem connection_strips_managed_refuted :
   exists cfg t uuid r up sts,
